@@ -513,7 +513,11 @@ func (e *vEngine) EvaluateTargets(labels ...string) []runner.Result {
 			e.stack = append(e.stack, l)
 			vEvaluated = append(vEvaluated, l)
 			err = t.Evaluate(e)
-			vCompleted = append(vCompleted, l) // the evaluation ran to its end (it did not die half-way)
+			if err == nil {
+				// the evaluation ran to its end and succeeded (the process did not die half-way
+				// and no dependency's failure cut it short)
+				vCompleted = append(vCompleted, l)
+			}
 			e.stack = e.stack[:len(e.stack)-1]
 		}
 		r := runner.Result{Target: t, Error: err}
@@ -671,10 +675,17 @@ func vBuild(target string, opts *RunOptions) (loadErr, buildErr error, crashed b
 	vPending = map[string]vPendingExec{}
 	vDry = opts != nil && opts.DryRun
 	crashed = vCatchCrash(func() {
-		proj, err := vLoadProject()
-		if err != nil {
-			loadErr = err
-			return
+		// a fresh process per build (the CLI, watch mode) unless the history keeps one loaded
+		// project for several runs (the REPL's run())
+		proj := vKept
+		if proj == nil || !vKeepProject {
+			var err error
+			proj, err = vLoadProject()
+			if err != nil {
+				loadErr = err
+				return
+			}
+			vKept = proj
 		}
 		l, _ := label.Parse(target)
 		buildErr = proj.Run(l, opts)
@@ -682,6 +693,9 @@ func vBuild(target string, opts *RunOptions) (loadErr, buildErr error, crashed b
 	vDry = false
 	return
 }
+
+var vKept *Project
+var vKeepProject bool
 
 func vRanBody(name string) bool {
 	for _, r := range vRan {
